@@ -474,7 +474,11 @@ pub fn run(_params: &Params) {
           moves.push("reorder_disclosures");
         }
         3 => {
-          let forged = if ctx::choose(3) == 0 {
+          let forged = if !disclosures.is_empty() && ctx::choose(4) == 0 {
+            // a genuine disclosure with base64 padding appended: another string, whose digest is not among the signed ones
+            ctx::stat("fault.adversary.padded_disclosure");
+            format!("{}{}", disclosures[ctx::choose(disclosures.len())], ["=", "=="][ctx::choose(2)])
+          } else if ctx::choose(3) == 0 {
             // not a disclosure at all: text of arbitrary length that ends in characters outside ASCII (whatever the
             // validator does with it - decode, quote it in an error - it must answer with an error)
             ctx::stat("fault.adversary.garbage_disclosure_non_ascii");
